@@ -136,7 +136,7 @@ TYPES = {
     'lit': Literal['a', 1, None],
     'enum_s': E1, 'enum_i': EI, 'myint': MyInt, 'strsub': StrSub,
     'list_int': t.List[int], 'seq_any': t.Sequence, 'set_int': t.Set[int],
-    'tuple_var': t.Tuple[int, ...], 'tuple_fix': t.Tuple[int, float], 'tuple_lit': (int, str),
+    'tuple_var': t.Tuple[int, ...], 'tuple_fix': t.Tuple[int, float], 'tuple_lit': (int, str), 'tuple_struct': t.Tuple[P1, int],
     'dict_si': t.Dict[str, int], 'dict_if': t.Dict[int, float], 'counter': collections.Counter,
     'ddict': t.DefaultDict[str, int],
     'struct': {'a': int, 'b': Optional[str]},
@@ -194,13 +194,13 @@ VOCAB = {
 
 # which shape group can reach acceptance (default A) / rejection (default A); None = not in the generic domain
 ACC = {'tuple_fix': 'B', 'tuple_lit': 'B', 'range': None, 'tag_adj': None, 'tag_ext': None, 'struct': 'C', 'pn': None,
-       'pt': 'A', 'cond_set': 'B'}
+       'pt': 'A', 'cond_set': 'B', 'tuple_struct': None}
 REJ = {'any': None}
 MAPPISH = {'any', 'dict_si', 'dict_if', 'counter', 'ddict', 'struct', 'union', 'p1', 'p2', 'ph', 'pal', 'range', 'dict_p2',
            'tag_int', 'tag_ext', 'tag_adj', 'vol', 'picky', 'pn', 'pi', 'union_tag_dict', 'opt_vol'}
 SEQISH = {'any', 'list_int', 'seq_any', 'set_int', 'tuple_var', 'tuple_fix', 'tuple_lit', 'union', 'opt_list', 'vol',
           'cond_len', 'cond_nested', 'nested', 'nested_ragged', 'p2', 'ph', 'range', 'list_p1', 'union_ctor', 'lit', 'str',
-          'pt', 'pi', 'cond_set', 'opt_vol'}
+          'pt', 'pi', 'cond_set', 'opt_vol', 'tuple_struct'}
 TEXT = {'date', 'pattern', 'decimal', 'fraction'}      # text parsed by stdlib C/regex code: concretised vocabulary (td_text)
 # converters whose target constructor realises a symbolic int (complex(), int subclass __new__, float()): small ints
 SMALLINT = {'complex', 'cond_rng', 'range', 'myint', 'delegate', 'strsub', 'cond_set'}
@@ -285,8 +285,11 @@ def b_tag_int(tk, ha, ka, ia, sa, he):
 
 
 def b_tag_ext(tk, bk, ha, ka, ia, sa, he, n):
-    """{tag: body}: tag kinds 1..5, 8 (hashable); body kind bk: 0 mapping, 1 leaf; n: number of top-level items 0..2"""
-    body = variant_body(ha, ka, ia, sa, he) if bk == 0 else lf(ka, ia, sa)
+    """{tag: body}: tag kinds 1..5, 8 (hashable); body kind bk: 0 mapping, 1 leaf, 2 mapping that REPEATS the tag (as
+    into_data writes it); n: number of top-level items 0..2"""
+    body = variant_body(ha, ka, ia, sa, he) if bk != 1 else lf(ka, ia, sa)
+    if bk == 2:
+        body['t'] = tag_value(tk)
     if n == 0:
         return {}
     d = {tag_value(tk): body}
@@ -297,8 +300,10 @@ def b_tag_ext(tk, bk, ha, ka, ia, sa, he, n):
 
 def b_tag_adj(tk, bk, ha, ka, ia, sa, he, shape):
     """shape: 0 {t,c} | 1 {t} only | 2 {c} only | 3 {t,c,extra} | 4 {t, zz} (2 keys, wrong one)"""
-    body = variant_body(ha, ka, ia, sa, he) if bk == 0 else lf(ka, ia, sa)
+    body = variant_body(ha, ka, ia, sa, he) if bk != 1 else lf(ka, ia, sa)
     tag = tag_value(tk)
+    if bk == 2:
+        body['t'] = tag
     if shape == 0:
         return {'t': tag, 'c': body}
     elif shape == 1:
@@ -493,11 +498,11 @@ TD = {
     'tag_int': ('tag_int', "tk: int, ha: bool, ka: int, ia: int, sa: str, he: bool",
                 "0 <= tk <= 8 and 0 <= ka <= 5", "b_tag_int(tk, ha, ka, ia, sa, he)", (0, -1)),
     'tag_ext': ('tag_ext', "tk: int, bk: int, ha: bool, ka: int, ia: int, sa: str, he: bool, n: int",
-                "1 <= tk <= 8 and tk != 6 and tk != 7 and 0 <= bk <= 1 and 0 <= ka <= 5 and 0 <= n <= 2 and "
+                "1 <= tk <= 8 and tk != 6 and tk != 7 and 0 <= bk <= 2 and 0 <= ka <= 5 and 0 <= n <= 2 and "
                 "((n == 1 and tk <= 2) or (bk == 0 and not ha and not he))",
                 "b_tag_ext(tk, bk, ha, ka, ia, sa, he, n)", (0, -1)),
     'tag_adj': ('tag_adj', "tk: int, bk: int, ha: bool, ka: int, ia: int, sa: str, he: bool, shape: int",
-                "1 <= tk <= 8 and 0 <= bk <= 1 and 0 <= ka <= 5 and 0 <= shape <= 4 and "
+                "1 <= tk <= 8 and 0 <= bk <= 2 and 0 <= ka <= 5 and 0 <= shape <= 4 and "
                 "((shape == 0 and tk <= 2) or (bk == 0 and not ha and not he))",
                 "b_tag_adj(tk, bk, ha, ka, ia, sa, he, shape)", (0, -1)),
     'range': ('range', "hs: bool, he: bool, e: int, nsel: int, ssel: int",
@@ -530,6 +535,8 @@ TD = {
     'cond_len_seq': ('cond_len', "n: int, ka: int, ia: int, sa: str, kb: int, ib: int, sb: str, kc: int, ic: int, sc: str, tup: bool",
                      "0 <= n <= 3 and 0 <= ka <= 5 and 0 <= kb <= 2 and 0 <= kc <= 2",
                      "b_seq(n, ka, ia, sa, kb, ib, sb, kc, ic, sc, tup)", (0, -1)),
+    'tuple_struct': ('tuple_struct', "pa: bool, ka: int, ia: int, sa: str, pb: bool, kb: int, ib: int, sb: str, pe: bool",
+                     "0 <= ka <= 5 and 0 <= kb <= 2", "(b_struct2(pa, ka, ia, sa, pb, kb, ib, sb, pe), 3)", (0, -1)),
     'ph_struct': ('ph', "pa: bool, ka: int, ia: int, sa: str, pb: bool, kb: int, ib: int, sb: str, pe: bool",
                   "0 <= ka <= 5 and 0 <= kb <= 2", "b_struct2(pa, ka, ia, sa, pb, kb, ib, sb, pe)", (0, -1)),
     'p1_struct': ('p1', "pa: bool, ka: int, ia: int, sa: str, pb: bool, kb: int, ib: int, sb: str, pe: bool",
@@ -574,6 +581,69 @@ def emit_td(ns, what, names=None, timeout=120):
         if names is not None and name not in names:
             continue
         exec(_TD.format(name=name, conv=conv, sig=sig, pre=pre, expr=expr, wit=wit, timeout=timeout, what=what), ns)
+
+
+# ------------------------------------------------------------------ history of generic subscriptions (lru_cache memo: run untraced)
+
+_GT = t.TypeVar('_GT')
+
+
+class GBoxH(PaneBase, t.Generic[_GT]):
+    x: _GT
+
+
+GH_ARGS = (list[t.Union[int, float]], list[t.Union[float, int]], dict[str, t.Union[int, str]], dict[str, t.Union[str, int]],
+           list[t.Union[int, str]], list[t.Union[str, int]])
+GH_DATA = ([1], [1], {'k': 1}, {'k': 1}, [1.5], [1.5])
+GH_WANT = ([1], [1.0], {'k': 1}, {'k': 1}, None, None)           # None: rejected
+GH_ORDER = (('an int', 'a float'), ('a float', 'an int'), None, None, ('an int', 'a string'), ('a string', 'an int'))
+
+
+def generic_history(first, second):
+    """subscribe GBoxH with two equal-comparing but differently ordered arguments, in the given order (concretely: the
+    subscription memo is an lru_cache, which CrossHair bypasses under the tracer), then convert through both.
+    Returns a list of (index, accepted, value, error tree or None)."""
+    import sys as _sys
+    pcl = _sys.modules['pane.classes']
+    with hlib.untraced():
+        for name in ('_make_subclass', '_make_subclass_cached'):
+            f = getattr(pcl, name, None)
+            if f is not None and hasattr(f, 'cache_clear'):
+                f.cache_clear()
+        classes = {}
+        for k in (first, second, first):
+            classes[k] = GBoxH[GH_ARGS[k]]
+    out = []
+    for k in (first, second):
+        cls = classes[k]
+        try:
+            r = cls.from_data({'x': GH_DATA[k]})
+            out.append((k, True, r.x, None))
+        except pane.ConvertError as e:
+            out.append((k, False, None, e.tree))
+    return out
+
+
+def check_generic_history(first, second, with_tree=False):
+    """verdict 0 / violation code 20 (value depends on subscription order), 21 (error tree lists the union members in the
+    order of ANOTHER parameterisation)"""
+    for (k, ok, val, tree) in generic_history(first, second):
+        want = GH_WANT[k]
+        if want is None:
+            if ok:
+                return 20
+            if with_tree:
+                node = tree.children.get('x') if hasattr(tree, 'children') else None
+                node = node.children.get(0) if (node is not None and hasattr(node, 'children') and isinstance(node.children, dict)) else None
+                order = GH_ORDER[k]
+                if node is None or not hasattr(node, 'children') or len(node.children) != 2:
+                    return 21
+                if node.children[0].expected != order[0] or node.children[1].expected != order[1]:
+                    return 21
+        else:
+            if not ok or not hlib.eqv(val, want):
+                return 20
+    return 0
 
 
 def warm(fn):
